@@ -121,10 +121,13 @@ pub fn extra_parts(res: &mut CheckResult, tier: Tier, seed: u64, known: &Known) 
     }
 }
 
-pub fn replay_cross(tape: &[u16], known: &Known, strict: bool) -> Result<Option<String>, String> {
+pub fn replay_cross(tape: &[u16], stored: Option<&str>, known: &Known, strict: bool) -> Result<Option<String>, String> {
     let opts = wild_opts();
     let mut t = Tape::new(tape);
-    let (text, _) = gen_input(&mut t, &opts);
+    let text = match stored {
+        Some(s) => s.to_string(),
+        None => gen_input(&mut t, &opts).0,
+    };
     let mut first: Option<Vec<String>> = None;
     for _ in 0..12 {
         let r = xproc::run_dump("dump-syn1", std::slice::from_ref(&text))?;
